@@ -79,8 +79,9 @@ func (h *hashRanges) removeElement(elHash uint64) {
 		rng = h.getBottomRange(rng, elHash)
 		rng.elements--
 	}
-	parent := rng.parent
-	if parent.elements <= h.compareThreshold && parent != h.topRange {
+	// merge every divided ancestor that fell back to the threshold, lowest first, so that the
+	// shape of the range tree depends only on the contents
+	for parent := rng.parent; parent.elements <= h.compareThreshold && parent != h.topRange; parent = rng.parent {
 		ranges := genTupleRanges(parent.from, parent.to, h.divideFactor)
 		for _, tuple := range ranges {
 			child := h.ranges[tuple]
@@ -88,10 +89,9 @@ func (h *hashRanges) removeElement(elHash uint64) {
 			delete(h.dirty, child)
 		}
 		parent.isDivided = false
-		h.dirty[parent] = struct{}{}
-	} else {
-		h.dirty[rng] = struct{}{}
+		rng = parent
 	}
+	h.dirty[rng] = struct{}{}
 }
 
 func (h *hashRanges) recalculateHashes() {
